@@ -180,9 +180,50 @@ def check_C02(res, ctx):
     return "random histories with clean restarts under changing configurations; dump before Close vs after Open"
 
 
+def check_C11(res, ctx):
+    from . import dfcheck
+    dfcheck.geom_sweep(res, ctx)
+    n = 40 if ctx.quick else 600
+    for i in range(n):
+        rng = rng_for(ctx.seed, "C11", i)
+        ops0, written = dfcheck.df_sequence(rng, 0)
+        ops1 = [o.replace("df.open t 1 0", "df.open t 1 1") for o in ops0]
+        sums = []
+        for io, ops in ((0, ops0), (1, ops1)):
+            base = ctx.scratch.fresh()
+            try:
+                outs = run_impl(ops, base)
+            finally:
+                ctx.scratch.drop(base)
+            problems, reported = dfcheck.df_oracle(ops, outs, written)
+            res.case("\n".join(outs), len(written) >= 2)
+            res.count("df_records", len(written))
+            res.count("df_io%d" % io)
+            if any(int(p.split(".")[1]) > 0 for p in reported):
+                res.count("df_multiblock_files")
+            if problems:
+                res.violation("datafile run %d (io=%d): %s" % (i, io, problems[0]), {"ops": ops, "problem": problems[0]})
+                continue
+            sums.append([o for op, o in zip(ops, outs) if op == "df.sum"])
+            d = diff_model(res, ctx, ops, outs, "df %d" % i)
+            if d is not None:
+                j, a, b = d
+                res.violation("correspondence broke on datafile run %d at `%s`: code=%s model=%s" % (i, ops[j], a[:200], b[:200]),
+                              {"ops": ops[:j + 1], "code": a, "model": b, "correspondence": "datafile line protocol"}, no_input=True)
+        if len(sums) == 2 and sums[0] != sums[1]:
+            res.violation("FileIO and MMap stored different bytes for the same writes (run %d): %s vs %s" % (i, sums[0], sums[1]),
+                          {"ops": ops0, "sums": sums})
+        if i < 1:
+            res.sample({"df_ops_head": ops0[:8], "n_ops": len(ops0)})
+    return "geometry: (start offset, length) -> (position, size, next state) for all offsets (thorough) / boundary+random offsets (quick) x " \
+           "lengths ending within 8 bytes of the first three block boundaries; files: random single writes and multi-record flushes, " \
+           "scan / position reads / sizes / byte sums on both I/O back-ends; non-trivial = at least two records"
+
+
 CHECKS = {
     "C01": check_C01,
     "C02": check_C02,
+    "C11": check_C11,
 }
 
 ASSUME = {
